@@ -449,6 +449,10 @@ const basePreamble = `(declare-datatypes ((Ref 0)) (((null) (obj (objid Int)) (l
 (declare-fun strbytes (Str) Slice)
 (declare-fun bytesstr (Slice) Str)
 (declare-fun bitand (Int Int) Int)
+(assert (forall ((x Int)) (! (= (bitand x 1) (mod x 2)) :pattern ((bitand x 1)))))
+(assert (forall ((x Int)) (! (= (bitand x 2) (* 2 (mod (div x 2) 2))) :pattern ((bitand x 2)))))
+(assert (forall ((x Int)) (! (= (bitand x 3) (mod x 4)) :pattern ((bitand x 3)))))
+(assert (forall ((x Int) (y Int)) (! (= (bitand x y) (bitand y x)) :pattern ((bitand x y)))))
 (declare-fun bitor (Int Int) Int)
 (declare-fun bitxor (Int Int) Int)
 (declare-fun shl (Int Int) Int)
